@@ -616,7 +616,9 @@ impl MleJaccard {
         let jac = dequal as f64 / self.m as f64;
         //
         let solver = GoldenSectionSearch::new(b_inf, b_sup).unwrap();
-        let init_param = jac;
+        // the raw collision fraction can lie above the bracket (nested or nearly equal sets: J is at the upper end
+        // min(n1/n2, n2/n1) and estimation noise does the rest), the solver refuses such a start
+        let init_param = jac.clamp(b_inf, b_sup);
         //
         let cost = MleCost::new(dplus as f64, dless as f64, dequal as f64, u, v, self.b);
 
